@@ -522,7 +522,9 @@ class Sim:
                         continue
                     need = transitive_producers(g, e, disc)
                     if not any(f in need for f in failed):
-                        self.add('C05', 'independent command not started although the failure budget was not exhausted', dict(edge=rk, failed=failed, k=k), edges=failed)
+                        # (attribution is asked about the statement that was not started - e.g. one whose earlier failed
+                        # command had rewritten its output and is trusted now, D8 - not about the ones that failed here)
+                        self.add('C05', 'independent command not started although the failure budget was not exhausted', dict(edge=rk, failed=failed, k=k), edges=[rk])
             extra = [s for s in started if s not in pred['run']]
             if extra:
                 self.add('C03', 'unneeded command run', dict(extra=extra, pred=pred['run'], why=pred['why']))
@@ -1222,7 +1224,7 @@ def run_all_schedules(sim, ops):
     if last and last[-1].get('faults'):
         cmds = sim.cmd_edges()
         faults = {}
-        for (a, code, touch) in last[-1]['faults'][:1]:
+        for (a, code, touch) in last[-1]['faults'][:2]:       # up to two failing commands: with -k 1 they may overlap in time
             if cmds:
                 e = cmds[a % len(cmds)]
                 faults[key(e)] = dict(fail=code, fail_touch=False)
